@@ -140,7 +140,30 @@ func c19Subjects() []c19Subject {
 		}},
 		{"Bytes", func(o any) string { return sum(o.(efivar.Marshallable).Bytes()) }},
 	}
+	descOps := []c19Op{
+		{"Marshal", func(o any) string {
+			var b bytes.Buffer
+			o.(*signature.EFIVariableAuthentication2).Marshal(&b)
+			return sum(b.Bytes())
+		}},
+		{"Verify(c1)", func(o any) string {
+			ok, err := o.(*signature.EFIVariableAuthentication2).Verify(keys.C(1))
+			return fmt.Sprint(ok, err)
+		}},
+		{"Verify(c3)", func(o any) string {
+			ok, err := o.(*signature.EFIVariableAuthentication2).Verify(keys.C(3))
+			return fmt.Sprint(ok, err)
+		}},
+	}
 	return []c19Subject{
+		{"authentication descriptor", func() any {
+			db, _ := signature.ReadSignatureDatabase(bytes.NewReader(dbBytes))
+			a, _, err := signature.SignEFIVariable(efivar.Db, &db, keys.K(1), keys.C(1))
+			if err != nil {
+				panic(err)
+			}
+			return a
+		}, func(o any) string { return deepdump.Dump(o) }, descOps},
 		{"signed image", func() any {
 			p, err := authenticode.Parse(bytes.NewReader(c19Signed))
 			if err != nil {
@@ -425,7 +448,7 @@ func init() {
 	hx.Register(&hx.Prop{
 		ID:    "C19",
 		Level: "model_checking",
-		Rule: "three sub-checks on a parsed image (signed twice, and unsigned), a decoded signature database and a signed-update value, all built through the library in a build where every io.SectionReader / bytes.Buffer / bytes.Reader operation of go-uefi is redirected to instrumented wrappers (import rewrite): " +
+		Rule: "three sub-checks on a parsed image (signed twice, and unsigned), a decoded signature database, a signed-update value and its authentication descriptor (Marshal / Verify), all built through the library in a build where every io.SectionReader / bytes.Buffer / bytes.Reader operation of go-uefi is redirected to instrumented wrappers (import rewrite): " +
 			"(1) sequential repetition: all sequences of read-only operations up to length 4; every result must equal the result of the same call on a fresh object and the object's complete private state (cursors included, white-box dump) must be unchanged after every call; " +
 			"(2) interleavings: cooperative scheduler with a scheduling point at every access to an object shared between threads (created before the threads started, or by another thread); harnesses = every multiset of operations for 2 threads x 1 operation, 2 threads x 2 operations, 3 threads x 1 operation on one shared object; iterative preemption bounding (stateless DFS, executions run to completion, fresh object per execution); " +
 			"every execution's results must equal the sequential reference; (3) a free-running -race build of the same operations with 16 goroutines (separate binary; a detector report is a violation, silence is not counted as exhaustive evidence)",
